@@ -12,7 +12,11 @@
 // bufmodule.Module.Digest on several backends (memory, disk, tar round trip, shuffled walk),
 // under module name / commit / targeting changes, and under single-byte / single-path /
 // single-dependency perturbations.  Section G: module sets (local modules importing each
-// other, remote modules with pinned dependency keys).
+// other, remote modules with pinned dependency keys).  Section N: paths containing U+000A in
+// every position (module file, non-module file, LICENSE / documentation look-alikes, object
+// data names, a dependency inside a module set) through every entry point and backend: since
+// the fix of bufcas.NewFileNode a module file with such a path has NO digest (an error from
+// every entry point), a non-module file with such a path is ignored.
 //
 // The Lean model receives the hash as a table computed here with golang.org/x/crypto/sha3.
 // The oracle (implementation only) recomputes every b5 digest from the published
@@ -171,11 +175,34 @@ func encList(xs []string) string {
 // error classes (texts are never compared, only the class)
 // ---------------------------------------------------------------------------------------
 
+// errChain lists err and everything it wraps, outermost first (errors.Join trees included:
+// storage walks return joined errors).
+func errChain(err error) []error {
+	var out []error
+	var walk func(e error)
+	walk = func(e error) {
+		if e == nil {
+			return
+		}
+		out = append(out, e)
+		switch u := e.(type) {
+		case interface{ Unwrap() error }:
+			walk(u.Unwrap())
+		case interface{ Unwrap() []error }:
+			for _, c := range u.Unwrap() {
+				walk(c)
+			}
+		}
+	}
+	walk(err)
+	return out
+}
+
 func classify(err error) string {
 	if err == nil {
 		return "ok"
 	}
-	for e := err; e != nil; e = errors.Unwrap(e) {
+	for _, e := range errChain(err) {
 		var pe *bufparse.ParseError
 		if errors.As(e, &pe) && pe == e {
 			continue
@@ -202,6 +229,8 @@ func classify(err error) string {
 			return "err path-invalid"
 		case strings.HasPrefix(msg, "path ") && strings.Contains(msg, " was not equal to normalized path "):
 			return "err path-not-normal"
+		case strings.HasPrefix(msg, "path ") && strings.HasSuffix(msg, " contains a line feed, which a manifest cannot represent"):
+			return "err path-line-feed"
 		case msg == "did not end with newline":
 			return "err no-trailing-newline"
 		case strings.HasPrefix(msg, "path ") && strings.Contains(msg, " was duplicated when creating a manifest"):
@@ -1221,7 +1250,14 @@ type gmod struct {
 	pinned []string // remote: pinned dependency digests
 }
 
-func msetCase(run *hx.Run, idx int, r *hx.Rand) {
+// lfPlant asks msetCase to add one file whose path contains U+000A to one module of the set
+// (nil = none: the generator stream is then exactly what it was without this feature).
+type lfPlant struct {
+	mod  int // taken modulo the number of modules
+	path string
+}
+
+func msetCase(run *hx.Run, idx int, r *hx.Rand, lf *lfPlant) {
 	defer func() {
 		if p := recover(); p != nil {
 			failure(run, hx.OracleFailure{Class: "panic", What: fmt.Sprintf("module-set case panicked: %v", p), Input: nil, Replay: failReplay(run, idx)})
@@ -1289,10 +1325,50 @@ func msetCase(run *hx.Run, idx int, r *hx.Rand) {
 		}
 		sort.Ints(closure[i])
 	}
+	// the planted line-feed file: a module whose MODULE files include it has no digest, and
+	// neither has any local module that (transitively) depends on it
+	noDigest := make([]bool, n)
+	lfMod, lfIsModuleFile := -1, false
+	if lf != nil {
+		lfMod = lf.mod % n
+		lfFile := file{lf.path, protoText(r, "lf", nil)}
+		lfIsModuleFile = inFiles(oracleModuleFiles(append(cloneFiles(mods[lfMod].files), lfFile)), lf.path)
+		if lfIsModuleFile && !mods[lfMod].local {
+			// A REMOTE module whose content has no digest cannot even be read (ModuleData.Bucket()
+			// verifies the digest first), which makes import resolution fail for unrelated local
+			// modules too — outside what this property states.  Remote modules with such a file are
+			// covered one at a time by lineFeedCase; here the file goes into a local module.
+			lfMod = n - 1
+		}
+		mods[lfMod].files = append(mods[lfMod].files, lfFile)
+		lfIsModuleFile = inFiles(oracleModuleFiles(mods[lfMod].files), lf.path)
+		run.Count(fmt.Sprintf("lf:mset:module-file=%v:local=%v", lfIsModuleFile, mods[lfMod].local))
+		if lfIsModuleFile {
+			noDigest[lfMod] = true
+			for i := range mods {
+				for _, j := range closure[i] {
+					if j == lfMod {
+						noDigest[i] = true
+					}
+				}
+			}
+		}
+	}
 	// oracle digests bottom-up
 	want := make([]string, n)
 	t := newTable()
 	for i, m := range mods {
+		if noDigest[i] {
+			// the key of a remote module must pin something: any digest will do, it is never compared
+			want[i] = "b5:" + hex.EncodeToString(shake([]byte("no digest "+strconv.Itoa(i))))
+			// what the model lists as hashed for a module whose walk fails: the contents, and the
+			// (empty) manifest text it never gets to
+			for _, f := range m.files {
+				t.add(f.Content)
+			}
+			t.add(nil)
+			continue
+		}
 		var deps []string
 		if m.local {
 			for _, j := range closure[i] {
@@ -1371,17 +1447,317 @@ func msetCase(run *hx.Run, idx int, r *hx.Rand) {
 				got = mm.ActualDigest.String()
 			} else {
 				run.Case(line, classify(err), true)
-				failure(run, hx.OracleFailure{Class: "digest-error", What: fmt.Sprintf("Module.Digest(b5) of module %d in a module set failed: %v", i, err), Input: parts, Replay: failReplay(run, idx)})
+				if noDigest[i] {
+					run.Count("lf:mset:" + classify(err))
+					if classify(err) != "err path-line-feed" {
+						failure(run, hx.OracleFailure{Class: "line-feed-path-error-class", What: fmt.Sprintf("module %d of a module set (its module files, or those of a dependency, contain a path with U+000A) failed with %s instead of the line-feed error: %v", i, classify(err), err), Input: parts, Replay: failReplay(run, idx)})
+					}
+					continue
+				}
+				failure(run, hx.OracleFailure{Class: "digest-error", What: fmt.Sprintf("Module.Digest(b5) of module %d in a module set failed: %v", i, err), Input: map[string]any{"modules": parts, "closure": closure}, Replay: failReplay(run, idx)})
 				continue
 			}
 		} else {
 			got = d.String()
+		}
+		if noDigest[i] {
+			run.Case(line, "ok "+got, true)
+			failure(run, hx.OracleFailure{Class: "line-feed-path-digested", What: fmt.Sprintf("module %d of a module set has the b5 digest %s although a module file of it or of one of its dependencies (module %d, %q) has U+000A in its path", i, got, lfMod, lf.path), Input: map[string]any{"modules": parts, "closure": closure}, Replay: failReplay(run, idx)})
+			continue
 		}
 		run.Case(line, "ok "+got, len(closure[i]) > 0 || len(m.pinned) > 0)
 		run.Count(fmt.Sprintf("mset:local=%v:deps=%d", m.local, len(closure[i])+len(m.pinned)))
 		if got != want[i] {
 			failure(run, hx.OracleFailure{Class: "b5-construction-module-set", What: fmt.Sprintf("module %d of a module set: Digest(b5)=%s, published construction over its files and the digests of its resolved dependencies gives %s", i, got, want[i]), Input: map[string]any{"modules": parts, "closure": closure}, Replay: failReplay(run, idx)})
 		}
+	}
+}
+
+// ---------------------------------------------------------------------------------------
+// Section N: U+000A in paths
+// ---------------------------------------------------------------------------------------
+
+// The positions a line feed is put in.  Whether the resulting path is a module file is decided
+// by the published rule (oracleModuleFiles), not by the kind's name.
+var lfKinds = []string{
+	"proto-stem", "proto-dir", "proto-lead", "proto-imitates-line", "license-dir-proto", "doc-dir-proto",
+	"non-module-txt", "license-like", "doc-like", "proto-ext-broken", "dir-license", "dir-doc", "bare",
+}
+
+// paths for the module-set plant (module files and non-module files)
+var lfSetPaths = []string{"lf/x\ny.proto", "lf\n/z.proto", "\nlf.proto", "lf/notes\n.txt", "LICENSE\n", "lf/a.proto\n", "buf.md\n"}
+
+func genLineFeedPath(r *hx.Rand, kind string, base []file) string {
+	dir := ""
+	if r.Bool() {
+		dir = hx.Pick(r, dirAtoms[:12]) + "/"
+	}
+	var cands []string
+	switch kind {
+	case "proto-stem":
+		cands = []string{dir + "x\ny.proto", dir + "a\n.proto", dir + "a  b\nc.proto", dir + "é\n日本.proto", dir + "x\n\ny.proto"}
+	case "proto-dir":
+		cands = []string{"d\ne/f.proto", dir + "d\n/f.proto", "\n/f.proto", dir + "x y\n z/a.proto"}
+	case "proto-lead":
+		cands = []string{dir + "\nlead.proto", dir + "\n.proto", "\n\n.proto"}
+	case "proto-imitates-line":
+		// a module file of the base set, followed by what looks like the manifest line of another
+		var protos []file
+		for _, f := range oracleModuleFiles(base) {
+			if oracleExt(f.Path) == ".proto" {
+				protos = append(protos, f)
+			}
+		}
+		if len(protos) == 0 {
+			protos = []file{{"x.proto", []byte("c1")}}
+		}
+		a := protos[r.Intn(len(protos))]
+		other := hx.Pick(r, []string{"y.proto", "zz/other.proto", "LICENSE.proto"})
+		cands = []string{a.Path + "\nshake256:" + hex.EncodeToString(shake(genContent(r, "x.bin", false))) + "  " + other}
+	case "license-dir-proto":
+		cands = []string{"LICENSE\n/z.proto", "LICENSE\nx.proto"}
+	case "doc-dir-proto":
+		cands = []string{"buf.md\n/z.proto", "README.md\nz.proto"}
+	case "non-module-txt":
+		cands = []string{dir + "notes\n.txt", dir + "a\nb", dir + "x.proto\n.bak", dir + "data\n\n.bin"}
+	case "license-like":
+		cands = []string{"LICENSE\n", "\nLICENSE", "LICEN\nSE", "LICENSE\n.md"}
+	case "doc-like":
+		cands = []string{"buf.md\n", "buf\n.md", "README\n.md", "README.md\nREADME.markdown", "\nREADME.markdown"}
+	case "proto-ext-broken":
+		cands = []string{dir + "a.proto\n", dir + "a.pro\nto", dir + "a.\nproto", dir + "a.proto\nx"}
+	case "dir-license":
+		cands = []string{"d\n/LICENSE", "\n/LICENSE"}
+	case "dir-doc":
+		cands = []string{"d\n/buf.md", "\n/README.md"}
+	case "bare":
+		cands = []string{"\n", dir + "\n", "\n/\n"}
+	}
+	hx.Shuffle(r, cands)
+	for _, c := range cands {
+		if !inDirPrefix(base, c) {
+			return c
+		}
+	}
+	return ""
+}
+
+// tryBucket builds a backend bucket; a backend that cannot hold the path at all (reported, not
+// assumed) is skipped.
+func tryBucket(build func() storage.ReadBucket) (b storage.ReadBucket, err error) {
+	defer func() {
+		if p := recover(); p != nil {
+			err = fmt.Errorf("%v", p)
+		}
+	}()
+	return build(), nil
+}
+
+// lineFeedCase: base (no line feed anywhere) plus one file at path p (contains U+000A).
+//   - p is a module file  => NO entry point may return a digest; every one fails with the line-feed error;
+//   - p is no module file => every digest is the digest of base's module files (p is ignored);
+//   - bufcas.NewFileNode / ParseFileNode / NewFileSetForBucket refuse p in either case.
+func lineFeedCase(run *hx.Run, idx int, r *hx.Rand, tmp string, base []file, p, kind string, deps []string, parseable bool) {
+	content := genContent(r, p, parseable)
+	if parseable {
+		content = protoText(r, "", nil) // harmless for a non-.proto path, needed for a .proto one
+	}
+	files := append(cloneFiles(base), file{p, content})
+	hx.Shuffle(r, files)
+	input := map[string]any{"files": showFiles(files), "deps": deps, "line_feed_path": p, "kind": kind}
+	fail := func(class, what string, extra map[string]any) {
+		in := map[string]any{}
+		for k, v := range input {
+			in[k] = v
+		}
+		for k, v := range extra {
+			in[k] = v
+		}
+		failure(run, hx.OracleFailure{Class: class, What: what, Input: in, Replay: failReplay(run, idx)})
+	}
+	defer func() {
+		if pn := recover(); pn != nil {
+			fail("panic", fmt.Sprintf("line-feed case panicked: %v", pn), nil)
+		}
+	}()
+	isModuleFile := inFiles(oracleModuleFiles(files), p)
+	allB5 := true
+	for _, d := range deps {
+		if !strings.HasPrefix(d, "b5:") {
+			allB5 = false
+		}
+	}
+	run.Count(fmt.Sprintf("lf:kind=%s:module-file=%v", kind, isModuleFile))
+	run.Count(fmt.Sprintf("lf:deps=%d", len(deps)))
+
+	// ---- bufcas entry points (correspondence lines + oracle) ----
+	dg := shake(content)
+	if _, err := bufcas.NewFileNode(p, mustDigest(dg)); err == nil {
+		fail("line-feed-path-accepted", fmt.Sprintf("bufcas.NewFileNode accepted the path %q", p), map[string]any{"entry_point": "NewFileNode"})
+	} else if classify(err) != "err path-line-feed" {
+		fail("line-feed-path-error-class", fmt.Sprintf("bufcas.NewFileNode(%q) failed with %s: %v", p, classify(err), err), map[string]any{"entry_point": "NewFileNode"})
+	}
+	run.Eval()
+	nodeText := "shake256:" + hex.EncodeToString(dg) + "  " + p
+	if _, err := bufcas.ParseFileNode(nodeText); err == nil {
+		fail("line-feed-path-accepted", fmt.Sprintf("bufcas.ParseFileNode accepted the path %q", p), map[string]any{"entry_point": "ParseFileNode"})
+	}
+	nodeCase(run, nodeText)
+	specs := []nodeSpec{{p, dg}}
+	for _, f := range base {
+		if len(specs) < 4 {
+			specs = append(specs, nodeSpec{f.Path, shake(f.Content)})
+		}
+	}
+	hx.Shuffle(r, specs)
+	manifestCase(run, idx, specs, "line-feed")
+	// a manifest TEXT in which the path is spread over two lines is not a representation of it
+	if _, err := bufcas.NewFileSetForBucket(ctx, memBucket(files)); err == nil {
+		fail("line-feed-path-accepted", fmt.Sprintf("bufcas.NewFileSetForBucket built a manifest over the path %q", p), map[string]any{"entry_point": "NewFileSetForBucket"})
+	} else if classify(err) != "err path-line-feed" {
+		fail("line-feed-path-error-class", fmt.Sprintf("bufcas.NewFileSetForBucket failed with %s: %v", classify(err), err), map[string]any{"entry_point": "NewFileSetForBucket"})
+	}
+	run.Eval()
+
+	// ---- Module.Digest through every backend ----
+	want := oracleB5(files, deps) // over the module files by the published rule
+	wantBase := oracleB5(base, deps)
+	check := func(label string, d string, err error) {
+		run.Eval()
+		run.Count("lf:via:" + label)
+		switch {
+		case isModuleFile && err == nil:
+			fail("line-feed-path-digested", fmt.Sprintf("digest %s via %s although the module file %q has U+000A in its path", d, label, p), map[string]any{"entry_point": label})
+		case isModuleFile && classify(err) != "err path-line-feed":
+			fail("line-feed-path-error-class", fmt.Sprintf("digest via %s failed with %s instead of the line-feed error: %v", label, classify(err), err), map[string]any{"entry_point": label})
+		case !isModuleFile && err != nil:
+			if allB5 {
+				fail("digest-error", fmt.Sprintf("digest via %s failed although the only path with U+000A (%q) is not a module file: %v", label, p, err), map[string]any{"entry_point": label})
+			}
+		case !isModuleFile && d != want:
+			fail("b5-construction", fmt.Sprintf("digest via %s is %s, the published construction gives %s", label, d, want), map[string]any{"entry_point": label})
+		case !isModuleFile && allB5 && want != wantBase && len(oracleModuleFiles(files)) == len(oracleModuleFiles(base)):
+			fail("digest-impure", "the oracle itself: a non-module file changed the published digest", nil)
+		}
+	}
+	line, _ := b5Line(files, deps)
+	got, err := remoteB5(memBucket(files), deps, want, modOpts{})
+	if err != nil {
+		run.Case(line, classify(err), true)
+		run.Count("lf:b5:" + classify(err))
+	} else {
+		run.Case(line, "ok "+got, true)
+		run.Count("lf:b5:ok")
+		if !allB5 {
+			fail("dep-type-accepted", "a non-b5 dependency digest was accepted into a b5 digest", nil)
+		}
+	}
+	if allB5 || isModuleFile {
+		check("memory", got, err)
+	}
+	if !allB5 && !isModuleFile {
+		return
+	}
+	sh := cloneFiles(files)
+	hx.Shuffle(r, sh)
+	d, err := remoteB5(shuffledBucket{memBucket(sh), r.Fork(7)}, deps, want, modOpts{})
+	check("shuffled-walk", d, err)
+	if b, berr := tryBucket(func() storage.ReadBucket { return diskBucket(tmp, files) }); berr == nil {
+		d, err = remoteB5(b, deps, want, modOpts{})
+		check("disk", d, err)
+	} else {
+		run.Count("lf:backend-unavailable:disk")
+	}
+	if b, berr := tryBucket(func() storage.ReadBucket { return tarRoundTrip(files) }); berr == nil {
+		if paths, perr := storage.AllPaths(ctx, b, ""); perr == nil && inStrings(paths, p) {
+			d, err = remoteB5(b, deps, want, modOpts{})
+			check("tar-roundtrip", d, err)
+		} else {
+			run.Count("lf:backend-unavailable:tar-drops-path")
+		}
+	} else {
+		run.Count("lf:backend-unavailable:tar")
+	}
+	d, err = remoteB5(memBucket(files), deps, want, modOpts{name: "other-name", commit: uuid.New()})
+	check("module-name", d, err)
+	if mf := oracleModuleFiles(base); len(mf) > 0 {
+		d, err = remoteB5(memBucket(files), deps, want, modOpts{targetPaths: []string{mf[0].Path}})
+		check("targeting", d, err)
+	}
+	if parseable && len(deps) == 0 && hasProto(oracleModuleFiles(files)) {
+		d, err = localDigest(memBucket(files), modOpts{}, bufmodule.DigestTypeB5, nil, nil)
+		check("local-module", d, err)
+		d, err = localDigest(memBucket(files), modOpts{nonTarget: true}, bufmodule.DigestTypeB5, nil, nil)
+		check("local-module-non-target", d, err)
+	}
+	// ---- b4: module files + object data; an object-data NAME with a line feed is refused too ----
+	b4LineFeed(run, idx, r, files, p, isModuleFile, fail)
+}
+
+func inStrings(xs []string, x string) bool {
+	for _, y := range xs {
+		if y == x {
+			return true
+		}
+	}
+	return false
+}
+
+func b4LineFeed(run *hx.Run, idx int, r *hx.Rand, files []file, p string, isModuleFile bool, fail func(class, what string, extra map[string]any)) {
+	var yaml bufmodule.ObjectData
+	yEnc := "-"
+	var extra []file
+	lfName := false
+	if r.Chance(1, 2) {
+		name := hx.Pick(r, []string{"buf.yaml", "buf\n.yaml", "buf.yaml\n", "\nbuf.lock"})
+		lfName = strings.Contains(name, "\n")
+		data := genContent(r, "x.bin", false)
+		o, err := bufmodule.NewObjectData(name, data)
+		must(err)
+		yaml = o
+		yEnc = hx.Enc(name) + "=" + encB(data)
+		extra = append(extra, file{name, data})
+	}
+	t := newTable()
+	for _, f := range files {
+		t.add(f.Content)
+	}
+	all := append(append([]file(nil), oracleModuleFiles(files)...), extra...)
+	sort.SliceStable(all, func(i, j int) bool { return all[i].Path < all[j].Path })
+	dup := false
+	for i := 1; i < len(all); i++ {
+		if all[i].Path == all[i-1].Path {
+			dup = true
+		}
+	}
+	for _, f := range extra {
+		t.add(f.Content)
+	}
+	mt := oracleManifestText(all)
+	t.add([]byte(mt))
+	line := "b4\t" + t.enc() + "\t" + encBucket(files) + "\t" + yEnc + "\t-"
+	got, err := localDigest(memBucket(files), modOpts{}, bufmodule.DigestTypeB4, yaml, nil)
+	run.Eval()
+	run.Count(fmt.Sprintf("lf:b4:module-file=%v:name-lf=%v", isModuleFile, lfName))
+	if err != nil {
+		run.Case(line, classify(err), true)
+		switch {
+		case isModuleFile || lfName:
+			if classify(err) != "err path-line-feed" {
+				fail("line-feed-path-error-class", fmt.Sprintf("Module.Digest(b4) failed with %s instead of the line-feed error: %v", classify(err), err), map[string]any{"entry_point": "local-module-b4", "yaml": yEnc})
+			}
+		case !dup:
+			fail("digest-error", fmt.Sprintf("Module.Digest(b4) failed although no covered path has U+000A: %v", err), map[string]any{"entry_point": "local-module-b4", "yaml": yEnc})
+		}
+		return
+	}
+	run.Case(line, "ok "+got, true)
+	if isModuleFile || lfName {
+		fail("line-feed-path-digested", fmt.Sprintf("Module.Digest(b4) = %s although a covered path has U+000A (module file %q / object data %s)", got, p, yEnc), map[string]any{"entry_point": "local-module-b4", "yaml": yEnc})
+		return
+	}
+	if want := "shake256:" + hex.EncodeToString(shake([]byte(mt))); got != want {
+		fail("b4-construction", fmt.Sprintf("Module.Digest(b4)=%s but SHAKE256 of the path-sorted manifest is %s", got, want), map[string]any{"yaml": yEnc})
 	}
 }
 
@@ -1410,10 +1786,25 @@ func witnessCases(run *hx.Run, tmp string) {
 			Input:  map[string]any{"files_a": showFiles(two), "files_b": showFiles(one), "digest": dTwo},
 			Replay: failReplay(run, 0)})
 	}
+	if err1 != nil {
+		failure(run, hx.OracleFailure{Class: "digest-error", What: fmt.Sprintf("Module.Digest(b5) failed on {x.proto, y.proto}: %v", err1), Input: showFiles(two), Replay: failReplay(run, 0)})
+	}
+	lineOne, _ := b5Line(one, nil)
+	if err2 == nil {
+		run.Case(lineOne, "ok "+dOne, true)
+		failure(run, hx.OracleFailure{Class: "line-feed-path-digested",
+			What:   "Module.Digest(b5) returned a digest for a module file whose path contains U+000A (the manifest text is ambiguous)",
+			Input:  map[string]any{"files": showFiles(one), "digest": dOne},
+			Replay: failReplay(run, 0)})
+	} else {
+		run.Case(lineOne, classify(err2), true)
+		run.Count("witness:newline-path-" + classify(err2))
+	}
+	// W3: the same through every other entry point
+	lineFeedCase(run, 0, hx.NewRand(run.Seed).Fork(77), tmp, two, one[0].Path, "proto-imitates-line", nil, true)
 	for _, s := range []string{"shake256:" + hex.EncodeToString(d1) + "  a  b.proto", "shake256:" + hex.EncodeToString(d1) + "   a", "shake256:" + hex.EncodeToString(d1) + "  ", "shake256:" + hex.EncodeToString(d1) + " x"} {
 		nodeCase(run, s)
 	}
-	_ = tmp
 }
 
 func smallScope(run *hx.Run, r *hx.Rand, tmp string, base int) {
@@ -1507,7 +1898,38 @@ func main() {
 	gr := r.Fork(3)
 	for i := 0; i < nG; i++ {
 		if run.Only < 0 || run.Only == idx {
-			msetCase(run, idx, gr.Fork(uint64(i)))
+			msetCase(run, idx, gr.Fork(uint64(i)), nil)
+		}
+		idx++
+	}
+	// Section N (after every other section, own generator streams: the inputs of sections M, D, G
+	// for a given seed are what they were before this section existed)
+	nN := run.N(700, 7000)
+	nr := r.Fork(4)
+	for i := 0; i < nN; i++ {
+		cr := nr.Fork(uint64(i))
+		if run.Only < 0 || run.Only == idx {
+			parseable := cr.Chance(1, 3)
+			base := genFileSet(cr, parseable)
+			kind := lfKinds[i%len(lfKinds)]
+			p := genLineFeedPath(cr, kind, base)
+			var deps []string
+			if !parseable || cr.Bool() {
+				for k, c := 0, cr.Intn(3); k < c; k++ {
+					deps = append(deps, "b5:"+hex.EncodeToString(randDigestBytes(cr)))
+				}
+				if cr.Chance(1, 20) {
+					deps = append(deps, "shake256:"+hex.EncodeToString(randDigestBytes(cr)))
+				}
+			}
+			if p != "" {
+				lineFeedCase(run, idx, cr, tmp, base, p, kind, deps, parseable)
+			}
+			if i%5 == 0 {
+				msetCase(run, idx, cr.Fork(98), &lfPlant{mod: cr.Intn(6), path: hx.Pick(cr, lfSetPaths)})
+			}
+			os.RemoveAll(tmp)
+			must(os.MkdirAll(tmp, 0o755))
 		}
 		idx++
 	}
